@@ -709,4 +709,282 @@ def provedFamilies : List Family :=
   [.rosenbrock, .ackley, .sphere, .modifiedEasom, .equalityConstr, .griewank, .perm, .rastrigin, .zakharov,
    .xinSheYang1, .xinSheYang2, .booth, .alpine]
 
+theorem exp_neg_small (t : ℝ) (h : 20 ≤ t) : Real.exp (-t) ≤ 1 / 2 ^ 20 := by
+  have h1 : Real.exp (-t) ≤ Real.exp (-20) := Real.exp_le_exp.2 (by linarith)
+  have h2 : Real.exp (-20) = Real.exp (-1) ^ 20 := by
+    rw [← Real.exp_nat_mul]; norm_num
+  have h3 : Real.exp (-1) ≤ 1 / 2 := by
+    have := Real.add_one_le_exp (1:ℝ)
+    rw [Real.exp_neg, inv_le_comm₀ (Real.exp_pos 1) (by norm_num)]
+    norm_num; linarith
+  have h4 : Real.exp (-1) ^ 20 ≤ (1 / 2) ^ 20 := pow_le_pow_left₀ (Real.exp_nonneg _) h3 20
+  calc Real.exp (-t) ≤ Real.exp (-1) ^ 20 := h2 ▸ h1
+    _ ≤ (1 / 2) ^ 20 := h4
+    _ = 1 / 2 ^ 20 := by norm_num
+
+theorem atomNd_real (w m : ℚ) (xs : List ℝ) (zs : List ℚ) :
+    atomNd w m xs zs = Real.exp (-(((xs.zip zs).map (fun p => (p.1 - (p.2 : ℝ)) ^ 2)).sum / (w : ℝ))) * (m : ℝ) := by
+  unfold atomNd
+  simp only [real_add, real_sub, real_mul, real_div, real_neg, real_exp, nat_real, rat_real, sq_real]
+  rw [foldl_add_eq]
+  simp [div_neg]
+
+theorem atomNd_nonneg (w m : ℚ) (hm : 0 ≤ m) (xs : List ℝ) (zs : List ℚ) : 0 ≤ atomNd w m xs zs := by
+  rw [atomNd_real]
+  have : (0:ℝ) ≤ (m:ℝ) := by exact_mod_cast hm
+  positivity
+
+theorem atomNd_small (w m : ℚ) (hw : 0 < w) (hm : 0 ≤ m) (xs : List ℝ) (zs : List ℚ)
+    (h : 20 * (w : ℝ) ≤ ((xs.zip zs).map (fun p => (p.1 - (p.2 : ℝ)) ^ 2)).sum) :
+    atomNd w m xs zs ≤ (m : ℝ) / 2 ^ 20 := by
+  rw [atomNd_real]
+  have hwr : (0:ℝ) < (w:ℝ) := by exact_mod_cast hw
+  have hmr : (0:ℝ) ≤ (m:ℝ) := by exact_mod_cast hm
+  have := exp_neg_small (((xs.zip zs).map (fun p => (p.1 - (p.2 : ℝ)) ^ 2)).sum / (w : ℝ))
+    (by rw [le_div_iff₀ hwr]; exact h)
+  calc _ ≤ 1 / 2 ^ 20 * (m:ℝ) := mul_le_mul_of_nonneg_right this hmr
+    _ = (m : ℝ) / 2 ^ 20 := by ring
+
+theorem atomSum_real (t : ℚ × ℚ × List ℚ) (tbl : List (ℚ × ℚ × List ℚ)) (xs : List ℝ) :
+    atomSum (t :: tbl) xs = some (atomNd t.1 t.2.1 xs t.2.2 + (tbl.map (fun t => atomNd t.1 t.2.1 xs t.2.2)).sum) := by
+  obtain ⟨w, m, z⟩ := t
+  simp only [atomSum, real_add]
+  rw [foldl_add_eq]
+
+/-- every Gaussian whose centre is far from `xs` contributes at most `m/2^20`, the others are bounded below by 0 -/
+theorem atoms_between (tbl : List (ℚ × ℚ × List ℚ)) (xs : List ℝ)
+    (h : ∀ t ∈ tbl, 0 < t.1 ∧ 0 ≤ t.2.1 ∧ t.2.1 ≤ 2 ∧
+      20 * (t.1 : ℝ) ≤ ((xs.zip t.2.2).map (fun p => (p.1 - (p.2 : ℝ)) ^ 2)).sum) :
+    0 ≤ (tbl.map (fun t => atomNd t.1 t.2.1 xs t.2.2)).sum ∧
+    (tbl.map (fun t => atomNd t.1 t.2.1 xs t.2.2)).sum ≤ tbl.length * (2 / 2 ^ 20) := by
+  induction tbl with
+  | nil => simp
+  | cons t tbl ih =>
+    obtain ⟨hw, hm, hm2, hd⟩ := h t (by simp)
+    have ih' := ih (fun u hu => h u (by simp [hu]))
+    have h0 := atomNd_nonneg t.1 t.2.1 hm xs t.2.2
+    have h1 := atomNd_small t.1 t.2.1 hw hm xs t.2.2 hd
+    have hm2r : (t.2.1 : ℝ) ≤ 2 := by exact_mod_cast hm2
+    have h2 : (t.2.1 : ℝ) / 2 ^ 20 ≤ 2 / 2 ^ 20 := by
+      apply div_le_div_of_nonneg_right hm2r (by positivity)
+    simp only [List.map_cons, List.sum_cons, List.length_cons]
+    push_cast
+    constructor
+    · linarith [ih'.1]
+    · linarith [ih'.2]
+
+/-- the nine Gaussians of `Synthetic5D` other than the highest peak -/
+def synthetic5DOthers : List (ℚ × ℚ × List ℚ) := synthetic5DTable.eraseIdx 3
+
+theorem synthetic5D_documented :
+    ∃ v : ℝ, eval .synthetic5D [nat 3, nat 4, rat (13/10), nat 5, nat 5] = some v ∧ |v - 12 / 10| ≤ 1 / 1000 := by
+  set xs : List ℝ := [nat 3, nat 4, rat (13/10), nat 5, nat 5] with hxs
+  have hsplit : eval .synthetic5D xs = some (atomNd (4/10) (12/10) xs [3, 4, 13/10, 5, 5] +
+      (synthetic5DOthers.map (fun t => atomNd t.1 t.2.1 xs t.2.2)).sum) := by
+    have hl : xs.length ≤ 5 := by simp [hxs]
+    simp only [eval, if_pos hl]
+    rw [synthetic5DTable, atomSum_real]
+    simp only [synthetic5DOthers, synthetic5DTable, List.eraseIdx, List.map_cons, List.map_nil, List.sum_cons, List.sum_nil]
+    rw [Option.some.injEq]
+    ring
+  refine ⟨_, hsplit, ?_⟩
+  have hpeak : atomNd (4/10) (12/10) xs [3, 4, 13/10, 5, 5] = 12 / 10 := by
+    rw [atomNd_real, hxs]
+    simp only [List.zip_cons_cons, List.zip_nil_right, List.map_cons, List.map_nil, List.sum_cons, List.sum_nil, nat_real, rat_real]
+    norm_num
+  have hoth := atoms_between synthetic5DOthers xs (by
+    intro t ht
+    simp only [synthetic5DOthers, synthetic5DTable, List.eraseIdx, List.mem_cons, List.not_mem_nil, or_false] at ht
+    rcases ht with rfl | rfl | rfl | rfl | rfl | rfl | rfl | rfl | rfl <;>
+      refine ⟨by norm_num, by norm_num, by norm_num, ?_⟩ <;>
+      simp only [hxs, List.zip_cons_cons, List.zip_nil_right, List.map_cons, List.map_nil, List.sum_cons, List.sum_nil, nat_real, rat_real] <;>
+      norm_num)
+  rw [hpeak, abs_le]
+  have hlen : (synthetic5DOthers.length : ℝ) = 9 := by
+    simp [synthetic5DOthers, synthetic5DTable]
+  rw [hlen] at hoth
+  constructor <;> nlinarith [hoth.1, hoth.2]
+
+/-- the nine Gaussians of `Synthetic10D` other than the highest peak -/
+def synthetic10DOthers : List (ℚ × ℚ × List ℚ) := synthetic10DTable.eraseIdx 3
+
+theorem synthetic10D_documented :
+    ∃ v : ℝ, eval .synthetic10D [nat 3, nat 4, rat (13/10), nat 5, nat 5, nat 3, nat 4, rat (13/10), nat 5, nat 5] = some v ∧ |v - 12 / 10| ≤ 1 / 1000 := by
+  set xs : List ℝ := [nat 3, nat 4, rat (13/10), nat 5, nat 5, nat 3, nat 4, rat (13/10), nat 5, nat 5] with hxs
+  have hsplit : eval .synthetic10D xs = some (atomNd (4/10) (12/10) xs [3, 4, 13/10, 5, 5, 3, 4, 13/10, 5, 5] +
+      (synthetic10DOthers.map (fun t => atomNd t.1 t.2.1 xs t.2.2)).sum) := by
+    have hl : xs.length ≤ 10 := by simp [hxs]
+    simp only [eval, if_pos hl]
+    rw [synthetic10DTable, atomSum_real]
+    simp only [synthetic10DOthers, synthetic10DTable, List.eraseIdx, List.map_cons, List.map_nil, List.sum_cons, List.sum_nil]
+    rw [Option.some.injEq]
+    ring
+  refine ⟨_, hsplit, ?_⟩
+  have hpeak : atomNd (4/10) (12/10) xs [3, 4, 13/10, 5, 5, 3, 4, 13/10, 5, 5] = 12 / 10 := by
+    rw [atomNd_real, hxs]
+    simp only [List.zip_cons_cons, List.zip_nil_right, List.map_cons, List.map_nil, List.sum_cons, List.sum_nil, nat_real, rat_real]
+    norm_num
+  have hoth := atoms_between synthetic10DOthers xs (by
+    intro t ht
+    simp only [synthetic10DOthers, synthetic10DTable, List.eraseIdx, List.mem_cons, List.not_mem_nil, or_false] at ht
+    rcases ht with rfl | rfl | rfl | rfl | rfl | rfl | rfl | rfl | rfl <;>
+      refine ⟨by norm_num, by norm_num, by norm_num, ?_⟩ <;>
+      simp only [hxs, List.zip_cons_cons, List.zip_nil_right, List.map_cons, List.map_nil, List.sum_cons, List.sum_nil, nat_real, rat_real] <;>
+      norm_num)
+  rw [hpeak, abs_le]
+  have hlen : (synthetic10DOthers.length : ℝ) = 9 := by
+    simp [synthetic10DOthers, synthetic10DTable]
+  rw [hlen] at hoth
+  constructor <;> nlinarith [hoth.1, hoth.2]
+
+
+
+theorem exp_neg_le_pow (k : ℕ) (t : ℝ) (h : (k : ℝ) ≤ t) : Real.exp (-t) ≤ 1 / 2 ^ k := by
+  have h1 : Real.exp (-t) ≤ Real.exp (-(k:ℝ)) := Real.exp_le_exp.2 (by linarith)
+  have h2 : Real.exp (-(k:ℝ)) = Real.exp (-1) ^ k := by
+    rw [← Real.exp_nat_mul]; simp
+  have h3 : Real.exp (-1) ≤ 1 / 2 := by
+    have := Real.add_one_le_exp (1:ℝ)
+    rw [Real.exp_neg, inv_le_comm₀ (Real.exp_pos 1) (by norm_num)]
+    norm_num; linarith
+  have h4 : Real.exp (-1) ^ k ≤ (1 / 2) ^ k := pow_le_pow_left₀ (Real.exp_nonneg _) h3 k
+  calc Real.exp (-t) ≤ Real.exp (-1) ^ k := h2 ▸ h1
+    _ ≤ (1 / 2) ^ k := h4
+    _ = 1 / 2 ^ k := by rw [one_div_pow]
+
+/-- `exp(-1/2)` to seven digits (Taylor polynomial of degree 7 with the Lagrange-type remainder of Mathlib) -/
+theorem exp_neg_half_bounds : (606530 / 1000000 : ℝ) ≤ Real.exp (-(1 / 2)) ∧ Real.exp (-(1 / 2)) ≤ 606531 / 1000000 := by
+  have h := Real.exp_bound (x := -(1 / 2)) (by rw [abs_neg]; norm_num [abs_of_pos]) (n := 8) (by norm_num)
+  simp only [Finset.sum_range_succ, Finset.sum_range_zero, Nat.factorial] at h
+  rw [abs_le] at h
+  norm_num at h
+  constructor <;> linarith [h.1, h.2]
+
+/-- `exp(-9/2) = exp(-1/2)^9` between 0.011108 and 0.011110 -/
+theorem exp_neg_nine_half_bounds : (11108 / 1000000 : ℝ) ≤ Real.exp (-(9 / 2)) ∧ Real.exp (-(9 / 2)) ≤ 11110 / 1000000 := by
+  have e : Real.exp (-(9 / 2)) = Real.exp (-(1 / 2)) ^ 9 := by
+    rw [← Real.exp_nat_mul]; norm_num
+  obtain ⟨lo, hi⟩ := exp_neg_half_bounds
+  rw [e]
+  constructor
+  · calc (11108 / 1000000 : ℝ) ≤ (606530 / 1000000) ^ 9 := by norm_num
+      _ ≤ Real.exp (-(1 / 2)) ^ 9 := pow_le_pow_left₀ (by norm_num) lo 9
+  · calc Real.exp (-(1 / 2)) ^ 9 ≤ (606531 / 1000000) ^ 9 := pow_le_pow_left₀ (Real.exp_nonneg _) hi 9
+      _ ≤ 11110 / 1000000 := by norm_num
+
+theorem synthetic2D_at (x y : ℝ) : synthetic2D x y =
+    7 / 10 * Real.exp (-((x - 1) ^ 2 + (y - 1) ^ 2) / (18 / 100))
+    + 75 / 100 * Real.exp (-((x - 1) ^ 2 + (y - 3) ^ 2) / (32 / 100))
+    + Real.exp (-((x - 3) ^ 2 + (y - 1) ^ 2) / 2)
+    + 12 / 10 * Real.exp (-((x - 3) ^ 2 + (y - 4) ^ 2) / (32 / 100))
+    + Real.exp (-((x - 5) ^ 2 + (y - 2) ^ 2) / (72 / 100)) := by
+  unfold synthetic2D gauss
+  simp only [real_add, real_sub, real_mul, real_div, real_neg, real_exp, nat_real, rat_real, sq_real]
+  push_cast
+  rfl
+
+theorem synthetic2D_documented : |synthetic2D (3 : ℝ) 4 - 121112 / 100000| ≤ 1 / 1000 := by
+  rw [synthetic2D_at]
+  have e1 : (-(((3:ℝ) - 1) ^ 2 + (4 - 1) ^ 2) / (18 / 100)) = -(650 / 9) := by norm_num
+  have e2 : (-(((3:ℝ) - 1) ^ 2 + (4 - 3) ^ 2) / (32 / 100)) = -(125 / 8) := by norm_num
+  have e3 : (-(((3:ℝ) - 3) ^ 2 + (4 - 1) ^ 2) / 2) = -(9 / 2) := by norm_num
+  have e4 : (-(((3:ℝ) - 3) ^ 2 + (4 - 4) ^ 2) / (32 / 100)) = 0 := by norm_num
+  have e5 : (-(((3:ℝ) - 5) ^ 2 + (4 - 2) ^ 2) / (72 / 100)) = -(100 / 9) := by norm_num
+  rw [e1, e2, e3, e4, e5, Real.exp_zero]
+  have h1 := exp_neg_le_pow 20 (650 / 9) (by norm_num)
+  have h2 := exp_neg_le_pow 15 (125 / 8) (by norm_num)
+  have h5 := exp_neg_le_pow 11 (100 / 9) (by norm_num)
+  have p1 := Real.exp_nonneg (-(650 / 9))
+  have p2 := Real.exp_nonneg (-(125 / 8))
+  have p5 := Real.exp_nonneg (-(100 / 9))
+  obtain ⟨lo, hi⟩ := exp_neg_nine_half_bounds
+  rw [abs_le]
+  norm_num at h1 h2 h5
+  constructor <;> linarith
+
+/-- `exp(-5/9)` to six digits -/
+theorem exp_neg_five_ninths_bounds :
+    (573752 / 1000000 : ℝ) ≤ Real.exp (-(5 / 9)) ∧ Real.exp (-(5 / 9)) ≤ 573754 / 1000000 := by
+  have h := Real.exp_bound (x := -(5 / 9)) (by rw [abs_neg]; norm_num [abs_of_pos]) (n := 8) (by norm_num)
+  simp only [Finset.sum_range_succ, Finset.sum_range_zero, Nat.factorial] at h
+  rw [abs_le] at h
+  norm_num at h
+  constructor <;> linarith [h.1, h.2]
+
+/-- `exp(-50/9) = exp(-5/9)^10` between 0.003865 and 0.003867 -/
+theorem exp_neg_fifty_ninths_bounds :
+    (3865 / 1000000 : ℝ) ≤ Real.exp (-(50 / 9)) ∧ Real.exp (-(50 / 9)) ≤ 3867 / 1000000 := by
+  have e : Real.exp (-(50 / 9)) = Real.exp (-(5 / 9)) ^ 10 := by
+    rw [← Real.exp_nat_mul]; norm_num
+  obtain ⟨lo, hi⟩ := exp_neg_five_ninths_bounds
+  rw [e]
+  constructor
+  · calc (3865 / 1000000 : ℝ) ≤ (573752 / 1000000) ^ 10 := by norm_num
+      _ ≤ Real.exp (-(5 / 9)) ^ 10 := pow_le_pow_left₀ (by norm_num) lo 10
+  · calc Real.exp (-(5 / 9)) ^ 10 ≤ (573754 / 1000000) ^ 10 := pow_le_pow_left₀ (Real.exp_nonneg _) hi 10
+      _ ≤ 3867 / 1000000 := by norm_num
+
+theorem synthetic1D_at (x : ℝ) : synthetic1D x =
+    Real.exp (-(x - 1) ^ 2 / (1 / 2)) + 2 * Real.exp (-(x - 125 / 100) ^ 2 / (45 / 1000))
+    + 1 / 2 * Real.exp (-(x - 15 / 10) ^ 2 / (128 / 10000)) + 2 * Real.exp (-(x - 16 / 10) ^ 2 / (5 / 1000))
+    + 25 / 10 * Real.exp (-(x - 18 / 10) ^ 2 / (2 / 100)) + 25 / 10 * Real.exp (-(x - 22 / 10) ^ 2 / (2 / 100))
+    + 2 * Real.exp (-(x - 24 / 10) ^ 2 / (5 / 1000)) + 2 * Real.exp (-(x - 275 / 100) ^ 2 / (45 / 1000))
+    + Real.exp (-(x - 3) ^ 2 / (1 / 2)) + 2 * Real.exp (-(x - 6) ^ 2 / (32 / 100))
+    + 22 / 10 * Real.exp (-(x - 7) ^ 2 / (18 / 100)) + 24 / 10 * Real.exp (-(x - 8) ^ 2 / (1 / 2))
+    + 23 / 10 * Real.exp (-(x - 95 / 10) ^ 2 / (1 / 2)) + 32 / 10 * Real.exp (-(x - 11) ^ 2 / (18 / 100))
+    + 12 / 10 * Real.exp (-(x - 12) ^ 2 / (18 / 100)) := by
+  unfold synthetic1D peak peak1
+  simp only [real_add, real_sub, real_mul, real_div, real_neg, real_exp, nat_real, rat_real, sq_real]
+  push_cast
+  rfl
+
+theorem synthetic1D_documented : |synthetic1D (11 : ℝ) - 323 / 100| ≤ 1 / 1000 := by
+  rw [synthetic1D_at]
+  have e1 : (-((11:ℝ) - 1) ^ 2 / (1 / 2)) = -200 := by norm_num
+  have e2 : (-((11:ℝ) - 125 / 100) ^ 2 / (45 / 1000)) = -(4225 / 2) := by norm_num
+  have e3 : (-((11:ℝ) - 15 / 10) ^ 2 / (128 / 10000)) = -(451250 / 64) := by norm_num
+  have e4 : (-((11:ℝ) - 16 / 10) ^ 2 / (5 / 1000)) = -17672 := by norm_num
+  have e5 : (-((11:ℝ) - 18 / 10) ^ 2 / (2 / 100)) = -4232 := by norm_num
+  have e6 : (-((11:ℝ) - 22 / 10) ^ 2 / (2 / 100)) = -3872 := by norm_num
+  have e7 : (-((11:ℝ) - 24 / 10) ^ 2 / (5 / 1000)) = -14792 := by norm_num
+  have e8 : (-((11:ℝ) - 275 / 100) ^ 2 / (45 / 1000)) = -(3025 / 2) := by norm_num
+  have e9 : (-((11:ℝ) - 3) ^ 2 / (1 / 2)) = -128 := by norm_num
+  have e10 : (-((11:ℝ) - 6) ^ 2 / (32 / 100)) = -(625 / 8) := by norm_num
+  have e11 : (-((11:ℝ) - 7) ^ 2 / (18 / 100)) = -(800 / 9) := by norm_num
+  have e12 : (-((11:ℝ) - 8) ^ 2 / (1 / 2)) = -18 := by norm_num
+  have e13 : (-((11:ℝ) - 95 / 10) ^ 2 / (1 / 2)) = -(9 / 2) := by norm_num
+  have e14 : (-((11:ℝ) - 11) ^ 2 / (18 / 100)) = 0 := by norm_num
+  have e15 : (-((11:ℝ) - 12) ^ 2 / (18 / 100)) = -(50 / 9) := by norm_num
+  rw [e1, e2, e3, e4, e5, e6, e7, e8, e9, e10, e11, e12, e13, e14, e15, Real.exp_zero]
+  have h1 := exp_neg_le_pow 18 200 (by norm_num)
+  have h2 := exp_neg_le_pow 18 (4225 / 2) (by norm_num)
+  have h3 := exp_neg_le_pow 18 (451250 / 64) (by norm_num)
+  have h4 := exp_neg_le_pow 18 17672 (by norm_num)
+  have h5 := exp_neg_le_pow 18 4232 (by norm_num)
+  have h6 := exp_neg_le_pow 18 3872 (by norm_num)
+  have h7 := exp_neg_le_pow 18 14792 (by norm_num)
+  have h8 := exp_neg_le_pow 18 (3025 / 2) (by norm_num)
+  have h9 := exp_neg_le_pow 18 128 (by norm_num)
+  have h10 := exp_neg_le_pow 18 (625 / 8) (by norm_num)
+  have h11 := exp_neg_le_pow 18 (800 / 9) (by norm_num)
+  have h12 := exp_neg_le_pow 18 18 (by norm_num)
+  have p1 := Real.exp_nonneg (-200)
+  have p2 := Real.exp_nonneg (-(4225 / 2))
+  have p3 := Real.exp_nonneg (-(451250 / 64))
+  have p4 := Real.exp_nonneg (-17672)
+  have p5 := Real.exp_nonneg (-4232)
+  have p6 := Real.exp_nonneg (-3872)
+  have p7 := Real.exp_nonneg (-14792)
+  have p8 := Real.exp_nonneg (-(3025 / 2))
+  have p9 := Real.exp_nonneg (-128)
+  have p10 := Real.exp_nonneg (-(625 / 8))
+  have p11 := Real.exp_nonneg (-(800 / 9))
+  have p12 := Real.exp_nonneg (-18)
+  obtain ⟨lo13, hi13⟩ := exp_neg_nine_half_bounds
+  obtain ⟨lo15, hi15⟩ := exp_neg_fifty_ninths_bounds
+  rw [abs_le]
+  norm_num at h1 h2 h3 h4 h5 h6 h7 h8 h9 h10 h11 h12
+  constructor <;> linarith
+
+
 end Artap.Bench
